@@ -419,3 +419,7 @@ def replay(path):
         print("VIOLATION property=%s replay=%s" % (PROP, path))
         print("  sig=%s :: %s" % (v["sig"], v["msg"][:300]))
     return 1 if res.violations else 0
+
+
+# (what later rounds of seeded changes added to the workload; part of the evidence's description of the check)
+RULE += "; " + 'values written with escapes and folded lines, characters whose upper-case form is ASCII searched by their ASCII look-alikes under i;ascii-casemap, a third of the cards rewritten twice during every series of queries'
